@@ -36,6 +36,11 @@ type pubCase struct {
 	Before *gen.GraphBP `json:"before,omitempty"`
 	// FaultJobs: run the failing-writer enumeration with these job counts
 	FaultJobs []int `json:"fault_jobs,omitempty"`
+	// SameDoc: the history is an earlier publish of the SAME document object with other
+	// options (BeforeVis, BeforeMask) instead of another document
+	SameDoc    bool   `json:"same_doc,omitempty"`
+	BeforeVis  string `json:"before_vis,omitempty"`
+	BeforeMask int    `json:"before_mask,omitempty"`
 	// FailFrom > 0 (race children only): every write from this one on fails
 	FailFrom int  `json:"fail_from,omitempty"`
 	Hostile  bool `json:"hostile,omitempty"`
@@ -51,8 +56,13 @@ var hostileSourcePointers = []string{"S1", "../x", "a/b", "places", "families", 
 func genDoc(rt *rapid.T, hostile bool) *gen.GraphBP {
 	g := gen.Graph(gen.GraphOpts{MaxPeople: 5, MaxFamilies: 2, WildDates: true}).Draw(rt, "doc")
 	for i, p := range g.People {
-		// everybody is dead so that every page group is populated in every mode
-		if rapid.IntRange(0, 3).Draw(rt, "dead") > 0 {
+		// most people are dead so that every page group is populated in every mode; some are
+		// living for certain (born 2001, no death) so that the visibility matters
+		switch rapid.IntRange(0, 5).Draw(rt, "dead") {
+		case 0:
+		case 1:
+			p.Events = []gen.EventBP{{Tag: "BIRT", Date: "2 Feb 2001", HasDate: true, Place: "Sydney, Australia"}}
+		default:
 			p.Events = append(p.Events, gen.EventBP{Tag: "DEAT", Date: "1900", HasDate: true})
 		}
 		if hostile && rapid.IntRange(0, 1).Draw(rt, "hostileName") == 0 {
@@ -489,42 +499,76 @@ func TestCheckHistory(t *testing.T) {
 	defer os.RemoveAll(dir)
 	self, _ := os.Executable()
 	s := harness.NewSub("history-across-processes",
-		"document B published after another document A in this process versus B published alone in a fresh child process (the same test binary): the two sites must be byte-identical; A and B carry different surnames and places; non-trivial = both documents have >= 2 people")
-	s.Rapid(t, harness.Share(harness.Pick(120, 4000)), 192, func(rt *rapid.T) {
+		"a publish that follows a history in this process - another document A published first (two thirds), or the SAME document object published first with another visibility and page-group mask (one third) - versus the same publish alone in a fresh child process (the same test binary): the two sites must be byte-identical; non-trivial = the documents have >= 2 people")
+	s.Rapid(t, harness.Share(harness.Pick(160, 5000)), 192, func(rt *rapid.T) {
 		c := genCase(rt)
 		c.Jobs = []int{1}
-		c.Before = genDoc(rt, true)
-		out, err := runChild(self, dir, pubCase{Doc: c.Doc, Vis: c.Vis, Mask: c.Mask, Jobs: []int{1}})
-		nt := len(c.Doc.People) >= 2 && len(c.Before.People) >= 2
-		s.Eval(harness.JSON(c), nt, "vis:"+c.Vis)
+		if rapid.IntRange(0, 2).Draw(rt, "sameDoc") == 0 {
+			c.SameDoc = true
+			c.BeforeVis = rapid.SampledFrom([]string{"show", "hide", "placeholder"}).Draw(rt, "beforeVis")
+			c.BeforeMask = rapid.SampledFrom([]int{63, 63, 1, 2, 62, 47}).Draw(rt, "beforeMask")
+		} else {
+			c.Before = genDoc(rt, true)
+		}
+		nt := len(c.Doc.People) >= 2 && (c.SameDoc || len(c.Before.People) >= 2)
+		s.Eval(harness.JSON(c), nt, "vis:"+c.Vis, fmt.Sprintf("same-document:%v", c.SameDoc))
 		if nt {
 			s.MaybeSample(c)
 		}
-		var fl *harness.Failure
-		m := regexp.MustCompile(`CHILD-DIGEST (.*)`).FindStringSubmatch(out)
-		if m == nil {
-			if strings.Contains(out, "CHILD-FAILURE") {
-				return // the site itself is broken: the other sub-checks own that
-			}
-			fl = harness.Failf("child-died", "the child process did not produce a digest (%v):\n%s", err, trunc(out, 2000))
-		} else {
-			var alone map[string]string
-			_ = json.Unmarshal([]byte(m[1]), &alone)
-			if _, f := publish(c.Before, c.Vis, c.Mask, 1, 0); f != nil {
-				return
-			}
-			res, f := publish(c.Doc, c.Vis, c.Mask, 1, 0)
-			if f != nil {
-				return
-			}
-			if ok, why := sameSite(alone, digest(res.Files)); !ok {
-				fl = harness.Failf("depends-on-earlier-publishing", "document B published after document A differs from B published alone in a fresh process: %s\nA:\n%s\nB:\n%s", why, c.Before.Text(), c.Doc.Text())
-			}
-		}
-		if fl != nil && s.Report(c, fl) {
+		if fl := historyCheck(c, self, dir); fl != nil && s.Report(c, fl) {
 			rt.Fatalf("%s: %s", fl.Sig, fl.Msg)
 		}
 	})
+}
+
+// historyCheck publishes the case after its history in this process and compares the site
+// with the one a fresh child process (the same test binary) produces for the case alone.
+func historyCheck(c pubCase, self, dir string) *harness.Failure {
+	out, err := runChild(self, dir, pubCase{Doc: c.Doc, Vis: c.Vis, Mask: c.Mask, Jobs: []int{1}})
+	m := regexp.MustCompile(`CHILD-DIGEST (.*)`).FindStringSubmatch(out)
+	if m == nil {
+		if strings.Contains(out, "CHILD-FAILURE") {
+			return nil // the site itself is broken: the other sub-checks own that
+		}
+		return harness.Failf("child-died", "the child process did not produce a digest (%v):\n%s", err, trunc(out, 2000))
+	}
+	var alone map[string]string
+	_ = json.Unmarshal([]byte(m[1]), &alone)
+	var res *pub.Result
+	what := "document B published after document A"
+	if c.SameDoc {
+		what = fmt.Sprintf("the document published (%s, mask %d) after it had been published with other options (%s, mask %d)", c.Vis, c.Mask, c.BeforeVis, c.BeforeMask)
+		doc, derr := gedcom.NewDocumentFromString(c.Doc.Text())
+		if derr != nil {
+			return nil
+		}
+		if r0 := pub.Publish(doc, pub.FromMask(c.BeforeMask, c.BeforeVis, 1)); r0.Panic != "" || len(r0.Panics) > 0 {
+			return nil
+		}
+		res = pub.Publish(doc, pub.FromMask(c.Mask, c.Vis, 1))
+		if res.Panic != "" || len(res.Panics) > 0 {
+			return nil
+		}
+	} else {
+		if c.Before == nil {
+			return nil
+		}
+		if _, f := publish(c.Before, c.Vis, c.Mask, 1, 0); f != nil {
+			return nil
+		}
+		var f *harness.Failure
+		if res, f = publish(c.Doc, c.Vis, c.Mask, 1, 0); f != nil {
+			return nil
+		}
+	}
+	if ok, why := sameSite(alone, digest(res.Files)); !ok {
+		before := ""
+		if c.Before != nil {
+			before = "A:\n" + c.Before.Text()
+		}
+		return harness.Failf("depends-on-earlier-publishing", "%s differs from the same publish alone in a fresh process: %s\n%sB:\n%s", what, why, before, c.Doc.Text())
+	}
+	return nil
 }
 
 // ---- race detector --------------------------------------------------------------------------------------
@@ -626,9 +670,23 @@ func init() {
 		}
 		return nil
 	}
-	for _, n := range []string{"closed-confined-deterministic", "writer-fails-at-kth-file", "history-across-processes", "race-detector", "crash"} {
+	for _, n := range []string{"closed-confined-deterministic", "writer-fails-at-kth-file", "race-detector", "crash"} {
 		harness.RegisterReplay(n, rp)
 	}
+	// a history needs a fresh process to compare with: the replay starts one as the run does
+	harness.RegisterReplay("history-across-processes", func(raw json.RawMessage) *harness.Failure {
+		var c pubCase
+		if err := json.Unmarshal(raw, &c); err != nil {
+			return harness.Failf("bad-replay", "%v", err)
+		}
+		dir, err := os.MkdirTemp(os.Getenv("VERIF_SCRATCH"), "c19hist")
+		if err != nil {
+			return harness.Failf("infra", "%v", err)
+		}
+		defer os.RemoveAll(dir)
+		self, _ := os.Executable()
+		return historyCheck(c, self, dir)
+	})
 }
 
 func TestReplay(t *testing.T) { harness.RunReplay(t) }
